@@ -44,6 +44,13 @@ var c09SiteKey = map[string]string{
 	"FpCertChildIndex": "C09:signature:fingerprint-trust:empty-certificate-element:panic",
 	"FpCertChildType":  "C09:signature:fingerprint-trust:certificate-element-without-text:panic",
 	"StripKeyInfoNil":  "C09:signature:without-keyinfo:panic",
+	// decryptElement and xmlenc; the site is the same whichever entry point, placement or algorithm reaches it
+	"EncMethodNil":    "C09:encrypted-assertion:without-encryption-method:panic",
+	"RSAKeyType":      "C09:encrypted-assertion:encrypted-key-after-unwrapped-key:panic",
+	"HintPEMNil":      "C09:encrypted-assertion:encrypted-key:certificate-hint-not-pem:panic",
+	"HintCertKeyType": "C09:encrypted-assertion:encrypted-key:non-rsa-certificate-hint:panic",
+	"CipherValueNil":  "C09:encrypted-assertion:without-cipher-value:panic",
+	"BlockKeyType":    "C09:encrypted-assertion:without-encrypted-key:panic",
 }
 
 // the function in which each site lives: a panic elsewhere is a different defect and gets its own key
@@ -55,6 +62,18 @@ var c09SiteFunc = map[string]string{
 	"AuthnIssuerNil": ".Validate", "EncCertIndex": "getSPEncryptionCert", "AnyCertIndex": "getSPEncryptionCert",
 	"FpCertElNil": "getCertBasedOnFingerprint", "FpCertChildIndex": "getCertBasedOnFingerprint",
 	"FpCertChildType": "getCertBasedOnFingerprint", "StripKeyInfoNil": "validateSignature",
+	"EncMethodNil": "xmlenc.Decrypt", "RSAKeyType": "validateRSAKeyIfPresent", "HintPEMNil": "validateRSAKeyIfPresent",
+	"HintCertKeyType": "validateRSAKeyIfPresent", "CipherValueNil": "getCiphertext", "BlockKeyType": "CBC.Decrypt|GCM.Decrypt",
+}
+
+// c09InFunc: the frame belongs to (one of) the function(s) a site lives in.
+func c09InFunc(frame, funcs string) bool {
+	for _, f := range strings.Split(funcs, "|") {
+		if f != "" && strings.Contains(frame, f) {
+			return true
+		}
+	}
+	return false
 }
 
 func c09PanicKey(v *c09Vec, o *c09Obs) string {
@@ -72,7 +91,7 @@ func c09PanicKey(v *c09Vec, o *c09Obs) string {
 			continue
 		}
 		for _, s := range v.Pred.Fired {
-			if f := c09SiteFunc[s]; f != "" && strings.Contains(fr, f) {
+			if c09InFunc(fr, c09SiteFunc[s]) {
 				return c09SiteKey[s]
 			}
 		}
@@ -113,6 +132,10 @@ func c09Judge(rep *Report, v *c09Vec, o *c09Obs) bool {
 	replay := func() map[string]any { return map[string]any{"vector": v, "variant": o.Variant, "observed": o} }
 	what := fmt.Sprintf("%s via %s (%s)", c09Group(v), v.In.Entry, o.Variant)
 	switch {
+	case o.Hang && c09Stalled(v.In.Res):
+		rep.Violation(c09StallKey(&v.In), fmt.Sprintf("%s: the artifact resolution endpoint stalls (%s) and the call is bounded by %s (client: %s); ParseResponse was still blocked %v after that bound had ended",
+			what, v.In.Res, v.In.Bound, v.In.Client, c09StallGrace), replay())
+		return true
 	case o.Hang:
 		rep.Violation("C09:"+c09Group(v)+":"+v.In.Entry+":"+v.In.Framing+":hang", what+" did not return within the watchdog", replay())
 		return true
@@ -181,7 +204,7 @@ func c09Setup() (*c09Ctx, func()) {
 func TestC09(t *testing.T) {
 	rep := NewReport("C09")
 	defer rep.Finish(t)
-	rep.Rule = "every terminal state of spec/Totality.tla is one document: a subset of the optional parts of a Response+Assertion, SOAP/ArtifactResponse envelope, LogoutResponse, AuthnRequest, SP or IdP metadata document (all present values valid, IdP signature re-applied with the harness key after removing parts, assertion optionally encrypted to the SP), or a framing class, or a resolver behaviour, or a trust configuration of the SP (metadata certificates: one, several, none, an unparsable one; pinned certificate; pinned SHA-256 / SHA-512 fingerprint) crossed with the content of the KeyInfo of every signature in the message (11 classes, the signature value staying the trusted signer's), or a nesting shape (chain, ladder, wide-then-deep, sibling-after) x depth class (999 / 1000 / 1001 / 5000 / 400000 levels; thorough also 12000-20000 and 1000000) of EntitiesDescriptor elements; it is built concretely, run through the real consuming API inside a panic barrier and a 10 s watchdog (documents deep enough to exhaust the stack in a child process, deflate bombs serially under a heap-growth bound) and judged by the statement's oracle; non-trivial = every vector (class Total: must return a result or an error; MustReject: input inflating past 10 MB)"
+	rep.Rule = "every terminal state of spec/Totality.tla is one document: a subset of the optional parts of a Response+Assertion, SOAP/ArtifactResponse envelope, LogoutResponse, AuthnRequest, SP or IdP metadata document (all present values valid, IdP signature re-applied with the harness key after removing parts, assertion optionally encrypted to the SP), or a framing class, or a resolver behaviour, or a trust configuration of the SP (metadata certificates: one, several, none, an unparsable one; pinned certificate; pinned SHA-256 / SHA-512 fingerprint) crossed with the content of the KeyInfo of every signature in the message (11 classes, the signature value staying the trusted signer's), or a nesting shape (chain, ladder, wide-then-deep, sibling-after) x depth class (999 / 1000 / 1001 / 5000 / 400000 levels; thorough also 12000-20000 and 1000000) of EntitiesDescriptor elements, or the content of an EncryptedAssertion (certificate hint in the KeyInfo of its EncryptedKey: none / the SP's own / another RSA / ECDSA / Ed25519 certificate / base64 that is no certificate / text that is no PEM body / empty element / X509Data without certificate / two certificates in either order; EncryptedKey inside EncryptedData, next to it, or both; key transport rsa-oaep-mgf1p / rsa-1_5 / xmlenc11 rsa-oaep; block cipher AES-CBC / 3DES-CBC / AES-GCM; EncryptedKey complete, without EncryptionMethod, without CipherValue) genuinely encrypted to the SP, in a signed or unsigned Response around a signed or unsigned assertion, or an artifact resolution endpoint that stalls (never answers / answers the headers only) while the call is bounded by the SP's client timeout or only by the deadline or the cancellation of the incoming request's context (sp.HTTPClient nil or a client without timeout; the endpoint is an http.RoundTripper that gives up only when the request's context is done, and a loopback TCP listener that accepts and never writes: ParseResponse must have returned 25 s after the 300 ms bound); it is built concretely, run through the real consuming API inside a panic barrier and a 10 s watchdog (documents deep enough to exhaust the stack in a child process, deflate bombs serially under a heap-growth bound) and judged by the statement's oracle; non-trivial = every vector (class Total: must return a result or an error; MustReject: input inflating past 10 MB)"
 	vs := c09Load(t, rep)
 	if len(vs) == 0 {
 		rep.Break("no vectors")
@@ -211,6 +234,10 @@ func TestC09(t *testing.T) {
 		for i := range obs {
 			o := &obs[i]
 			st.variants++
+			if o.Broken != "" {
+				rep.Break("%s (%s): %s", k, o.Variant, o.Broken)
+				continue
+			}
 			bad := c09Judge(rep, v, o)
 			for _, site := range v.Pred.Fired {
 				e := st.bySite[site]
@@ -232,36 +259,19 @@ func TestC09(t *testing.T) {
 			}
 		}
 	}
-	parallel(len(par), func(i int) {
-		v := par[i]
-		obs := ctx.run(v, newRand(c09CaseKey(v)))
-		record(v, obs)
-		if i%3001 == 0 {
-			rep.Sample(map[string]any{"in": v.In, "class": v.Class, "predicted": v.Pred, "observed": obs[0]})
-		}
-	})
-	// deflate bombs: one at a time, with the live heap sampled while the consumer runs
-	c09Bomb()
-	bombs := map[string]string{}
-	for _, v := range serial {
-		c09Measure = true
-		obs := ctx.run(v, newRand(c09CaseKey(v)))
-		c09Measure = false
-		record(v, obs)
-		bombs[v.In.Entry+"/"+v.In.Framing] = fmt.Sprintf("%s, live heap grew by %.1f MB", obs[0].Verdict, obs[0].GrowthMB)
-	}
-	rep.Extra["deflate_bombs"] = bombs
-	// deeply nested documents can exhaust the goroutine stack, which no recover() survives:
-	// they run in a child process
+	// deeply nested documents can exhaust the goroutine stack, which no recover() survives: they run
+	// in child processes, started now so that they overlap with the in-process vectors (they are
+	// waited for before the heap of this process is measured)
+	tDeep := time.Now()
 	var dmu sync.Mutex
 	sem := make(chan struct{}, 6)
 	var dwg sync.WaitGroup
 	for _, v := range deep {
 		v := v
 		dwg.Add(1)
-		sem <- struct{}{}
 		go func() {
 			defer dwg.Done()
+			sem <- struct{}{}
 			defer func() { <-sem }()
 			obs, err := c09Child(v)
 			dmu.Lock()
@@ -273,11 +283,53 @@ func TestC09(t *testing.T) {
 			record(v, obs)
 		}()
 	}
+	t0 := time.Now()
+	famTime := map[string]time.Duration{}
+	var famMu sync.Mutex
+	parallel(len(par), func(i int) {
+		v := par[i]
+		t := time.Now()
+		obs := ctx.run(v, newRand(c09CaseKey(v)))
+		d := time.Since(t)
+		famMu.Lock()
+		famTime[v.In.Fam] += d
+		famMu.Unlock()
+		record(v, obs)
+		if i%3001 == 0 {
+			rep.Sample(map[string]any{"in": v.In, "class": v.Class, "predicted": v.Pred, "observed": obs[0]})
+		}
+	})
+	tPar := time.Since(t0)
 	dwg.Wait()
+	tChildren := time.Since(tDeep)
+	// deflate bombs: one at a time, with the live heap sampled while the consumer runs
+	t0 = time.Now()
+	c09Bomb()
+	bombs := map[string]string{}
+	for _, v := range serial {
+		c09Measure = true
+		obs := ctx.run(v, newRand(c09CaseKey(v)))
+		c09Measure = false
+		record(v, obs)
+		bombs[v.In.Entry+"/"+v.In.Framing] = fmt.Sprintf("%s, live heap grew by %.1f MB", obs[0].Verdict, obs[0].GrowthMB)
+	}
+	rep.Extra["deflate_bombs"] = bombs
+	tSerial := time.Since(t0)
+	famSec := map[string]float64{}
+	for f, d := range famTime {
+		famSec[f] = d.Seconds()
+	}
+	rep.Extra["family_seconds_summed_over_workers"] = famSec
+	rep.Extra["phase_seconds"] = map[string]float64{"parallel": tPar.Seconds(), "deflate_bombs": tSerial.Seconds(), "child_processes_overlapping_parallel": tChildren.Seconds()}
 
-	for _, fam := range []string{"assn", "resp", "art", "resolver", "frame", "logout", "authn", "spmd", "idpmd", "trust", "nest"} {
+	for _, fam := range []string{"assn", "resp", "art", "resolver", "frame", "logout", "authn", "spmd", "idpmd", "trust", "nest", "enc"} {
 		if st.okByFam[fam] == 0 {
 			rep.Break("vacuous: no document of family %q was accepted by the real code - the harness does not build valid messages", fam)
+		}
+	}
+	for site := range c09SiteKey {
+		if st.bySite[site][0] == 0 {
+			rep.Break("vacuous: no vector reaches the dereference site %s with its part absent", site)
 		}
 	}
 	if rep.Classes["Total"] == 0 || rep.Classes["MustReject"] == 0 {
